@@ -467,9 +467,17 @@ class Check:
             out_map = {}
             pending = list(chunk)
             guard = 0
+            tmo = timeout
+            hangs = 0
             while pending and guard < 10000:
                 guard += 1
-                rc, out, err = sh([exe], input="".join(l + "\n" for l in pending), timeout=timeout, env=env)
+                rc, out, err = sh([exe], input="".join(l + "\n" for l in pending), timeout=tmo, env=env)
+                if rc == 124:
+                    # a case that never returns: the rest of the chunk gets a short budget (cases take milliseconds),
+                    # and after a few hangs the remaining cases of this chunk are given up (reported as not run)
+                    hangs += 1
+                    tmo = min(tmo, 120)
+                giveup = rc == 124 and hangs > 3
                 ids = [l.split()[0] for l in pending]
                 outs = [l for l in out.splitlines() if l.strip()]
                 done = 0
@@ -490,6 +498,10 @@ class Check:
                     out_map[ids[done]] = "CRASH rc=%d %s" % (rc, (err or "").strip().replace("\n", " ")[-300:])
                     done += 1
                 pending = pending[done:]
+                if giveup:
+                    for l in pending:
+                        out_map.setdefault(l.split()[0], "CRASH rc=124 not run: the driver hung on %d earlier cases of this chunk" % hangs)
+                    break
             return out_map
 
         import concurrent.futures
